@@ -467,9 +467,9 @@ def summarize(case):
 def parts(tier):
     return [
         Part(name="batches", evaluate=evaluate, strategy=strategy, summarize=summarize,
-             budget={"quick": 400, "thorough": 50000}, min_nontrivial={"quick": 80, "thorough": 10000}),
+             budget={"quick": 400, "thorough": 150000}, min_nontrivial={"quick": 80, "thorough": 10000}),
         Part(name="bottomup-labels", evaluate=evaluate_topk, strategy=strategy_topk,
-             budget={"quick": 300, "thorough": 40000}, min_nontrivial={"quick": 30, "thorough": 4000}),
+             budget={"quick": 300, "thorough": 120000}, min_nontrivial={"quick": 30, "thorough": 4000}),
     ]
 
 
